@@ -279,6 +279,8 @@ impl SlabRouter {
         if !self.exists(key) {
             return Err(SlabRouterError::NotFound(key.to_string()));
         }
+        #[cfg(neumann_verif)]
+        crate::verif_hooks::yield_point("store.delete.checked");
 
         match Self::classify_key(key) {
             KeyClass::Embedding => {
